@@ -1,5 +1,5 @@
 // auto-generated: "lalrpop 0.23.1"
-// sha3: ff33613034cde8b13356181da595d1844254cfabc6e58a5f649342ab58fe6d94
+// sha3: a5435be1499d4344804de7bae1efb2b9f3998da48eb4277c2cf3c23a8707b460
 #[allow(unused_extern_crates)]
 extern crate lalrpop_util as __lalrpop_util;
 #[allow(unused_imports)]
@@ -641,8 +641,7 @@ fn __action1<
     (_, __0, _): (usize, &'input str, usize),
 ) -> String
 {
-    { let (x, y) = (r#"\"#.to_string(), ['\u{7d}'.to_string(), { /* } , ; */ let v = vec![(1, 2), (3, 4)]; // }
- v[1].0.to_string() }].concat()); x + &y }
+    "}{r#\n".to_string()
 }
 
 #[allow(unused_variables)]
@@ -654,7 +653,7 @@ fn __action2<
     (_, __0, _): (usize, &'input str, usize),
 ) -> String
 {
-    { fn f<'a>(x: &'a str) -> &'a str { x } f("q").to_string() }
+    r##",;/*("##.to_string()
 }
 
 #[allow(unused_variables)]
@@ -666,7 +665,7 @@ fn __action3<
     (_, __0, _): (usize, &'input str, usize),
 ) -> String
 {
-    { let r = 7; let t = (r, 1); /* /* nested , */ ; */ (t.0 / t.1).to_string() }
+    r"/*".to_string()
 }
 
 #[allow(unused_variables)]
@@ -678,7 +677,7 @@ fn __action4<
     (_, __0, _): (usize, &'input str, usize),
 ) -> String
 {
-    ';'.to_string()
+    '\n'.to_string()
 }
 
 #[allow(unused_variables)]
@@ -690,7 +689,7 @@ fn __action5<
     (_, __0, _): (usize, &'input str, usize),
 ) -> String
 {
-    { let r = 7; let t = (r, 1); /* /* nested , */ ; */ (t.0 / t.1).to_string() }
+    r##";"##.to_string()
 }
 
 #[allow(unused_variables)]
@@ -702,7 +701,7 @@ fn __action6<
     (_, __0, _): (usize, &'input str, usize),
 ) -> String
 {
-    '\\'.to_string()
+    '/'.to_string()
 }
 
 #[allow(unused_variables)]
@@ -714,7 +713,7 @@ fn __action7<
     (_, __0, _): (usize, &'input str, usize),
 ) -> String
 {
-    '('.to_string()
+    r###"}}/*"###.to_string()
 }
 
 #[allow(unused_variables)]
@@ -726,7 +725,8 @@ fn __action8<
     (_, __0, _): (usize, &'input str, usize),
 ) -> String
 {
-    { let r = 7; let t = (r, 1); /* /* nested , */ ; */ (t.0 / t.1).to_string() }
+    { /* } , ; */ let v = vec![(1, 2), (3, 4)]; // }
+ v[1].0.to_string() }
 }
 
 #[allow(clippy::type_complexity, dead_code)]
